@@ -77,3 +77,196 @@ Definition gcd_spec (a b : ext) : option ext :=
       let mb := match b with Fin z => Some z | _ => None end in
       if md_nonnegb ma && md_nonnegb mb then Some (m2e (gcdx ma mb)) else None
   end.
+
+(* ---------- partial inverse of a2g (the $max rule may store "infinity" as modular_value) ---------- *)
+Definition e2m (e : ext) : option modulus :=
+  match e with PosInf => Some None | Fin z => Some (Some z) | NegInf => None end.
+Definition g2a (g : grec) : option aval :=
+  match e2m g.(g_modulus), g.(g_modular_value) with
+  | Some m, Fin v => Some (mk_aval g.(g_minimum_value) g.(g_maximum_value) m v)
+  | _, _ => None
+  end.
+
+Lemma g2a_a2g : forall a, g2a (a2g a) = Some a.
+Proof. intros [l h [m|] v]; reflexivity. Qed.
+
+(* well-formedness under which the source's extra asserts (a >= 0, b >= 0 in the gcd) cannot fire *)
+Definition aval_wf (a : aval) : Prop :=
+  match a.(md) with Some m => 0 < m /\ 0 <= a.(mv) | None => True end.
+
+(* ---------- facts about the model's gcdx ---------- *)
+Lemma gcdx_nonzero : forall a b m, gcdx a b = Some m -> m <> 0.
+Proof.
+  intros [[|p|p]|] [[|q|q]|] m H; cbn in H; try discriminate; inversion H; subst; try discriminate;
+    intro E; apply Z.gcd_eq_0_l in E; discriminate.
+Qed.
+
+Lemma gcdx_nonneg : forall a b, md_nonneg a -> md_nonneg b -> md_nonneg (gcdx a b).
+Proof.
+  intros [[|p|p]|] [[|q|q]|] Ha Hb; cbn in *; try lia; try exact I; apply Z.gcd_nonneg.
+Qed.
+
+Lemma gcd_spec_m2e : forall a b, md_nonneg a -> md_nonneg b ->
+  gcd_spec (m2e a) (m2e b) = Some (m2e (gcdx a b)).
+Proof.
+  intros [x|] [y|] Ha Hb; cbn in *;
+    repeat match goal with |- context [?u <=? ?v] => replace (u <=? v) with true by (symmetry; apply Z.leb_le; assumption) end;
+    reflexivity.
+Qed.
+
+Lemma py_mod_nz : forall a m, m <> 0 -> py_mod a m = Some (a mod m).
+Proof. intros a m H. unfold py_mod. destruct (m =? 0) eqn:E; [apply Z.eqb_eq in E; contradiction|reflexivity]. Qed.
+
+Lemma py_floordiv_nz : forall a m, m <> 0 -> py_floordiv a m = Some (a / m).
+Proof. intros a m H. unfold py_floordiv. destruct (m =? 0) eqn:E; [apply Z.eqb_eq in E; contradiction|reflexivity]. Qed.
+
+(* ---------- _max / _min: the shape the source has today, and its equality with the model ---------- *)
+Definition max_shape (is_inf : ext -> bool) (l : list ext) : option ext :=
+  if existsb (fun n => ext_eqb n PosInf) l then Some PosInf
+  else if forallb (fun n => ext_eqb n NegInf) l then Some NegInf
+  else (z <- (xs <- py_mapM (fun n => py_int n) (filter (fun n => negb (is_inf n)) l);; py_max_ints xs);; Some (Fin z)).
+Definition min_shape (is_inf : ext -> bool) (l : list ext) : option ext :=
+  if existsb (fun n => ext_eqb n NegInf) l then Some NegInf
+  else if forallb (fun n => ext_eqb n PosInf) l then Some PosInf
+  else (z <- (xs <- py_mapM (fun n => py_int n) (filter (fun n => negb (is_inf n)) l);; py_min_ints xs);; Some (Fin z)).
+
+Section MaxMin.
+  Variable is_inf : ext -> bool.
+  Hypothesis is_inf_ok : forall a, is_inf a = ext_is_inf a.
+
+  Lemma max_shape_step : forall x y l, max_shape is_inf (x :: y :: l) = max_shape is_inf (ext_max2 x y :: l).
+  Proof.
+    intros x y l. unfold max_shape. cbn [existsb forallb filter]. rewrite !is_inf_ok.
+    destruct x as [|a|], y as [|b|]; cbn; rewrite ?is_inf_ok; cbn; try reflexivity;
+      try (destruct (existsb _ l); [reflexivity|]; destruct (forallb _ l); reflexivity).
+    - destruct (existsb _ l); [reflexivity|].
+      destruct (py_mapM _ _); reflexivity.
+  Qed.
+
+  Lemma max_shape_model : forall x l, max_shape is_inf (x :: l) = ext_max_list (x :: l).
+  Proof.
+    intros x l. revert x. induction l as [|y l IH]; intro x.
+    - unfold max_shape. cbn. rewrite is_inf_ok. destruct x; reflexivity.
+    - rewrite max_shape_step, IH. reflexivity.
+  Qed.
+
+  Lemma min_shape_step : forall x y l, min_shape is_inf (x :: y :: l) = min_shape is_inf (ext_min2 x y :: l).
+  Proof.
+    intros x y l. unfold min_shape. cbn [existsb forallb filter]. rewrite !is_inf_ok.
+    destruct x as [|a|], y as [|b|]; cbn; rewrite ?is_inf_ok; cbn; try reflexivity;
+      try (destruct (existsb _ l); [reflexivity|]; destruct (forallb _ l); reflexivity).
+    - destruct (existsb _ l); [reflexivity|].
+      destruct (py_mapM _ _); reflexivity.
+  Qed.
+
+  Lemma min_shape_model : forall x l, min_shape is_inf (x :: l) = ext_min_list (x :: l).
+  Proof.
+    intros x l. revert x. induction l as [|y l IH]; intro x.
+    - unfold min_shape. cbn. rewrite is_inf_ok. destruct x; reflexivity.
+    - rewrite min_shape_step, IH. reflexivity.
+  Qed.
+End MaxMin.
+
+(* ---------- the fixed proof scripts of the generated equality theorems ---------- *)
+Ltac bx_fin :=
+  cbn; rewrite ?andb_false_r, ?andb_true_r, ?orb_false_r, ?orb_true_r;
+  repeat match goal with |- context [if ?c then _ else _] => destruct c eqn:? end;
+  first [reflexivity | congruence | repeat f_equal; lia | exfalso; lia].
+
+(* helpers on python values: split every argument into -inf / 0 / positive / negative / +inf *)
+Ltac bx_ext := intros;
+  repeat match goal with a : ext |- _ => destruct a as [|[|?|?]|] end;
+  bx_fin.
+
+Lemma gcd_spec_m2e_fin : forall a z, md_nonneg a -> 0 <= z ->
+  gcd_spec (m2e a) (Fin z) = Some (m2e (gcdx a (Some z))).
+Proof. intros a z Ha Hz. exact (gcd_spec_m2e a (Some z) Ha Hz). Qed.
+Lemma gcd_spec_fin_fin : forall x y, 0 <= x -> 0 <= y ->
+  gcd_spec (Fin x) (Fin y) = Some (m2e (gcdx (Some x) (Some y))).
+Proof. intros x y Hx Hy. exact (gcd_spec_m2e (Some x) (Some y) Hx Hy). Qed.
+
+Ltac bx_side :=
+  first [assumption | apply gcdx_nonneg; bx_side | apply Z.abs_nonneg | exact I | cbn; lia
+        | cbn; apply Z.div_pos; lia ].
+Ltac bx_nz := repeat first [assumption | lia | apply Z.neq_mul_0; split].
+(* replace every call of the translated gcd by the model's gcdx (the asserts a >= 0, b >= 0 discharged) *)
+Ltac bx_cbn :=
+  cbn -[Z.add Z.sub Z.opp Z.mul Z.modulo Z.div Z.abs Z.gcd Z.eqb Z.leb Z.ltb gcdx gcd_spec py_mod py_floordiv].
+Ltac bx_gcd gcd_eq :=
+  repeat first
+    [ rewrite gcd_eq
+    | rewrite gcd_spec_m2e by bx_side
+    | rewrite gcd_spec_m2e_fin by bx_side
+    | rewrite gcd_spec_fin_fin by bx_side
+    | progress cbn [py_int m2e fst snd g_minimum_value g_maximum_value g_modulus g_modular_value a2g lo hi md mv] ].
+(* case split on the result of a gcdx, remembering that it is never 0 (and not negative when its arguments are not) *)
+Ltac bx_gcd_cases :=
+  repeat match goal with
+  | |- context [gcdx ?a ?b] =>
+      let E := fresh "E" in let m := fresh "m" in let N := fresh "N" in
+      try (assert (N : md_nonneg (gcdx a b)) by (apply gcdx_nonneg; bx_side));
+      destruct (gcdx a b) as [m|] eqn:E;
+      [ pose proof (gcdx_nonzero _ _ _ E); cbn [md_nonneg] in *; cbn [py_int m2e];
+        rewrite ?py_mod_nz, ?py_floordiv_nz by assumption
+      | cbn [py_int m2e] ]
+  end.
+
+(* ---------- the loop of the $max rule ---------- *)
+Lemma shared_nonneg : forall lm lv rm rv m v, md_nonneg lm -> md_nonneg rm ->
+  shared_modular_value lm lv rm rv = Some (m, v) -> md_nonneg m.
+Proof.
+  intros lm lv rm rv m v Hl Hr H. unfold shared_modular_value in H.
+  assert (N : md_nonneg (gcdx (gcdx lm rm) (Some (Z.abs (lv - rv))))) by (apply gcdx_nonneg; bx_side).
+  destruct (gcdx (gcdx lm rm) (Some (Z.abs (lv - rv)))) as [k|].
+  - destruct (lv mod k =? rv mod k); inversion H; subst; exact N.
+  - destruct ((lv =? rv) && _); inversion H; subst; exact I.
+Qed.
+
+Lemma g2a_mk : forall a b m v, g2a (mk_grec a b (m2e m) (Fin v)) = Some (mk_aval a b m v).
+Proof. intros a b [m|] v; reflexivity. Qed.
+
+Lemma map_a2g_lo : forall l, map (fun g => g_minimum_value g) (map a2g l) = map lo l.
+Proof. intro l. rewrite map_map. reflexivity. Qed.
+Lemma map_a2g_hi : forall l, map (fun g => g_maximum_value g) (map a2g l) = map hi l.
+Proof. intro l. rewrite map_map. reflexivity. Qed.
+
+Section MaxLoop.
+  Variable gsh : ext * ext -> ext * ext -> option (ext * ext).
+  Hypothesis gsh_ok : forall lm lv rm rv, md_nonneg lm -> md_nonneg rm ->
+    gsh (m2e lm, Fin lv) (m2e rm, Fin rv) = option_map sh2g (shared_modular_value lm lv rm rv).
+
+  Lemma foldM_shared : forall rest m v, md_nonneg m -> Forall (fun a => md_nonneg a.(md)) rest ->
+    py_foldM (fun (st : ext * ext) (arg : grec) =>
+                let '(rm, rv) := st in
+                match gsh (rm, rv) (g_modulus arg, g_modular_value arg) with
+                | Some p => let '(rm', rv') := p in Some (rm', rv')
+                | None => None
+                end) (map a2g rest) (m2e m, Fin v)
+    = option_map sh2g (shared_fold m v rest).
+  Proof.
+    induction rest as [|a rest IH]; intros m v Hm Hall.
+    - reflexivity.
+    - inversion Hall as [|? ? Ha Hrest]; subst.
+      cbn [map py_foldM shared_fold a2g g_modulus g_modular_value].
+      rewrite gsh_ok by assumption.
+      destruct (shared_modular_value m v (md a) (mv a)) as [[m' v']|] eqn:E; cbn [option_map sh2g fst snd].
+      + apply IH; [exact (shared_nonneg _ _ _ _ _ _ Hm Ha E)|assumption].
+      + reflexivity.
+  Qed.
+End MaxLoop.
+
+Ltac bx_proj :=
+  cbn [py_int m2e fst snd g_minimum_value g_maximum_value g_modulus g_modular_value a2g lo hi md mv
+       py_nth nth_error map tl ext_min_list ext_max_list fold_left].
+
+(* ---------- decidable comparisons used when a generated equality stops checking:
+   both sides are evaluated on a grid of arguments and compared with these ---------- *)
+Definition bx_opt {A} (f : A -> A -> bool) (a b : option A) : bool :=
+  match a, b with None, None => true | Some x, Some y => f x y | _, _ => false end.
+Definition bx_pair_eqb (a b : ext * ext) : bool := ext_eqb (fst a) (fst b) && ext_eqb (snd a) (snd b).
+Definition grec_eqb (a b : grec) : bool :=
+  ext_eqb a.(g_minimum_value) b.(g_minimum_value) && ext_eqb a.(g_maximum_value) b.(g_maximum_value)
+  && ext_eqb a.(g_modulus) b.(g_modulus) && ext_eqb a.(g_modular_value) b.(g_modular_value).
+Definition bx_mod_eqb (a b : modulus) : bool := ext_eqb (m2e a) (m2e b).
+Definition aval_eqb' (a b : aval) : bool :=
+  ext_eqb a.(lo) b.(lo) && ext_eqb a.(hi) b.(hi) && bx_mod_eqb a.(md) b.(md) && (a.(mv) =? b.(mv)).
